@@ -136,6 +136,16 @@ fn main() {
             let out = framework::run_check(prop.as_ref(), tier, seed, &env, Some((phase, idx)));
             std::process::exit(out.exit);
         }
+        "miri-shard" => {
+            // tx3-verif miri-shard <ID> <phase> <from> <to> <step> <seed> <tier>   (runs inside Miri)
+            let id = args.get(2).cloned().unwrap_or_else(|| usage());
+            let Some(prop) = props::lookup(&id) else { std::process::exit(2) };
+            let phase = args.get(3).cloned().unwrap_or_else(|| usage());
+            let num = |i: usize| args.get(i).and_then(|s| s.parse::<u64>().ok()).unwrap_or(0);
+            let tier = args.get(8).and_then(|s| Tier::parse(s)).unwrap_or(Tier::Quick);
+            let code = framework::run_inproc_shard(prop.as_ref(), tier, num(7), &phase, num(4), num(5), num(6).max(1));
+            std::process::exit(code);
+        }
         "worker" => {
             let id = args.get(2).cloned().unwrap_or_else(|| usage());
             let Some(prop) = props::lookup(&id) else {
